@@ -63,6 +63,10 @@ def run(spec0, rep, steps, tol=1e-9, direct=True):
         if not ref["wellposed"] or not all(np.all(np.isfinite(np.asarray(v.pose))) for v in vA):
             info["excluded"] += 1
             break
+        if getattr(rep, "perm", None) is not None and getattr(rep, "reuse_vertex_objects", False) and len(rep.perm) == len(vA):
+            # history: the same Vertex objects are also put into a SECOND graph with a permuted vertex list (as the library's own
+            # shuffle helper does); the first graph must keep working
+            I.Graph([], [vA[j] for j in rep.perm])
         specB = rep.spec_map(spec)
         gB, vB, eB = GB.build(specB)
         info["states"] += 1
@@ -84,6 +88,22 @@ def run(spec0, rep, steps, tol=1e-9, direct=True):
                 info["ratio"] = max(info["ratio"], r)
                 if not r <= 1.0:
                     msgs.append("state %d: error of edge #%d changes under the %s: %r -> %r" % (k, n_, rep.name, a.tolist(), b.tolist()))
+        if getattr(rep, "inplace", False):
+            # history: a third graph is evaluated once in the original description, then its vertex poses are rewritten IN PLACE
+            # into the R-description (same objects, same edges); everything must follow (no stale per-object intermediate results)
+            gC, vC, eC = GB.build(spec)
+            with np.errstate(all="ignore"):
+                gC.calc_chi2()
+                for ed in eC:
+                    ed.calc_error()
+                    ed.calc_jacobians()
+            for vc, vd in zip(vC, spec["vertices"]):
+                np.asarray(vc.pose)[...] = I.comps(I.mk_pose(vd["kind"], rep.pose_map(vd)))
+            with np.errstate(all="ignore"):
+                chiC = float(gC.calc_chi2())
+            if not abs(chiC - chiB) <= tolc:
+                msgs.append("state %d: after rewriting the vertex poses IN PLACE into the %s, chi2 is %.17g but a freshly built graph in that description has %.17g" % (k, rep.name, chiC, chiB))
+            GB.optimize(gC, tol=0.0, max_iter=1, fix_first_pose=False)
         # one Gauss-Newton step on both sides
         GB.optimize(gA, tol=0.0, max_iter=1, fix_first_pose=False)
         GB.optimize(gB, tol=0.0, max_iter=1, fix_first_pose=False)
@@ -108,6 +128,14 @@ def run(spec0, rep, steps, tol=1e-9, direct=True):
             info["ratio"] = max(info["ratio"], r)
             if not r <= 1.0:
                 msgs.append("state %d: GN(%s(x)) != %s(GN(x)) at vertex id %r (%s): %r vs %r (|diff| %.3g > %.3g)" % (k, rep.name, rep.name, v["id"], v["kind"], got, [float(x) for x in exp], d, tolp))
+        if getattr(rep, "inplace", False) and not msgs:
+            for vc, vb in zip(vC, [byidB.get(rep.id_map(v["id"])) for v in spec["vertices"]]):
+                gc, gb = I.comps(vc.pose), I.comps(vb.pose)
+                if all(np.isfinite(gc)) and all(np.isfinite(gb)):
+                    d = G.phys_diff(I.kind_of(vc.pose), gc, gb)
+                    if d > tolp:
+                        msgs.append("state %d: one Gauss-Newton step after the in-place rewrite differs from the step of a freshly built graph by %.3g at vertex id %r" % (k, d, vc.id))
+                        break
         if msgs:
             break
         spec = with_state(spec, snapA)
